@@ -2,4 +2,8 @@
 import BA.Prelude
 import BA.Generated.Constants
 import BA.Model.Paych
+<<<<<<< HEAD
 import BA.Model.Multisig
+=======
+import BA.Model.Evm.Storage
+>>>>>>> ws-c19
